@@ -192,6 +192,11 @@ pub fn dispatch(op: &str, a: &[Val]) -> Option<Val> {
             Some(enc_dt(&z))
         })(),
         "ar.opzdiffref" => (|| { let y: DateTime<FixedOffset> = dec_dt(a.get(1)?)?; Some(enc_td(dec_dt(a.get(0)?)? - &y)) })(),
+        "ar.zord" => (|| {
+            let x: DateTime<FixedOffset> = dec_dt(a.get(0)?)?; let y: DateTime<FixedOffset> = dec_dt(a.get(1)?)?;
+            Some(vtup(vec![vint(x.cmp(&y) as i8), vopt(x.partial_cmp(&y), |o| vint(o as i8)), vbool(x == y),
+                           vbool(std::cmp::max(x, y) == x)]))
+        })(),
         "ar.noff" => (|| {
             let n: NaiveDateTime = dec_ndt(a.get(0)?)?; let sg = sign(a.get(1)?)?; let o = off(a.get(2)?)?;
             Some(vopt(if sg { n.checked_add_offset(o) } else { n.checked_sub_offset(o) }, enc_ndt))
